@@ -96,8 +96,124 @@ theorem commitLoop_first_settles (q : Quirks) (env : Env) (fuel : Nat) (s : TSto
     (h : (commitOnce q s t ops).2 ≠ .writeConflict) :
     commitLoop q env fuel s t ops = ((commitOnce q s t ops).1, (commitOnce q s t ops).2, 1) := by
   cases fuel with
-  | zero => simp only [commitLoop]
+  | zero => simp only [commitLoop, h, if_false]
   | succ n => exact commitLoop_succ_other q env n s t ops h
+
+/-- no re-run left and the attempt meets a write conflict: the error of /repo ce077f1 -/
+theorem commitLoop_zero_conflict (q : Quirks) (env : Env) (s : TStore) (t : Txn) (ops : List BOp)
+    (h : (commitOnce q s t ops).2 = .writeConflict) :
+    commitLoop q env 0 s t ops = ((commitOnce q s t ops).1, .persistentConflict, 1) := by
+  simp only [commitLoop, h, if_true]
+
+/-! ### one attempt: what each outcome says -/
+
+theorem commitOnce_conflict_data (q : Quirks) (s : TStore) (t : Txn) (ops : List BOp)
+    (h : (commitOnce q s t ops).2 = .writeConflict) : (commitOnce q s t ops).1.data = s.data := by
+  unfold commitOnce at h ⊢
+  cases hc : commit q t.snap ops with
+  | error e => simp only [hc] at h; cases h
+  | ok d =>
+    cases hw : writeConflict s t ops with
+    | true => rfl
+    | false => simp only [hc, hw] at h; cases h
+
+theorem commitOnce_failed_inv (q : Quirks) (s : TStore) (t : Txn) (ops : List BOp) (e : CommitErr)
+    (h : (commitOnce q s t ops).2 = .failed e) : commit q t.snap ops = .error e ∧ (commitOnce q s t ops).1 = s := by
+  unfold commitOnce at h ⊢
+  cases hc : commit q t.snap ops with
+  | error e' =>
+    simp only [hc, TxnRes.failed.injEq] at h
+    subst h
+    exact ⟨rfl, rfl⟩
+  | ok d =>
+    cases hw : writeConflict s t ops with
+    | true => simp only [hc, hw, if_true] at h; cases h
+    | false => simp only [hc, hw] at h; cases h
+
+theorem commitOnce_ne_persistent (q : Quirks) (s : TStore) (t : Txn) (ops : List BOp) :
+    (commitOnce q s t ops).2 ≠ .persistentConflict := by
+  unfold commitOnce
+  cases hc : commit q t.snap ops with
+  | error e => simp
+  | ok d =>
+    cases hw : writeConflict s t ops with
+    | true => simp
+    | false => simp
+
+/-! ### the loop under ANY environment -/
+
+/-- the loop never hands out a bare write conflict any more -/
+theorem commitLoop_ne_writeConflict (q : Quirks) (env : Env) (ops : List BOp) :
+    ∀ (fuel : Nat) (s : TStore) (t : Txn), (commitLoop q env fuel s t ops).2.1 ≠ .writeConflict := by
+  intro fuel
+  induction fuel with
+  | zero =>
+    intro s t
+    by_cases h : (commitOnce q s t ops).2 = .writeConflict
+    · rw [commitLoop_zero_conflict q env s t ops h]; simp
+    · rw [commitLoop_first_settles q env 0 s t ops h]; exact h
+  | succ n ih =>
+    intro s t
+    by_cases h : (commitOnce q s t ops).2 = .writeConflict
+    · rw [commitLoop_succ_conflict q env n s t ops h]; exact ih _ _
+    · rw [commitLoop_succ_other q env n s t ops h]; exact h
+
+/-- A failed step answered by the loop is the failed step of one of its attempts, and that attempt's snapshot is a
+state the data really went through: it satisfies every predicate `P` that holds of the caller's snapshot and of the
+data at the start and is preserved by everything the other clients do. -/
+theorem commitLoop_failed_inv (q : Quirks) (env : Env) (ops : List BOp) (P : Store → Prop)
+    (hE : ∀ n s', P s'.data → P (env n s').data) :
+    ∀ (fuel : Nat) (s : TStore) (t : Txn) (e : CommitErr), P t.snap → P s.data →
+      (commitLoop q env fuel s t ops).2.1 = .failed e → ∃ snap, P snap ∧ commit q snap ops = .error e := by
+  intro fuel
+  induction fuel with
+  | zero =>
+    intro s t e hpt _ h
+    by_cases hc : (commitOnce q s t ops).2 = .writeConflict
+    · rw [commitLoop_zero_conflict q env s t ops hc] at h; cases h
+    · rw [commitLoop_first_settles q env 0 s t ops hc] at h
+      exact ⟨t.snap, hpt, (commitOnce_failed_inv q s t ops e h).1⟩
+  | succ n ih =>
+    intro s t e hpt hps h
+    by_cases hc : (commitOnce q s t ops).2 = .writeConflict
+    · rw [commitLoop_succ_conflict q env n s t ops hc] at h
+      have hd := commitOnce_conflict_data q s t ops hc
+      refine ih _ _ e ?_ ?_ h
+      · show P (commitOnce q s t ops).1.data
+        rw [hd]; exact hps
+      · apply hE
+        show P (commitOnce q s t ops).1.data
+        rw [hd]; exact hps
+    · rw [commitLoop_succ_other q env n s t ops hc] at h
+      exact ⟨t.snap, hpt, (commitOnce_failed_inv q s t ops e h).1⟩
+
+/-- the persistent conflict: every attempt was made, and the data are what the others made of them -/
+theorem commitLoop_persistent_inv (q : Quirks) (env : Env) (ops : List BOp) (P : Store → Prop)
+    (hE : ∀ n s', P s'.data → P (env n s').data) :
+    ∀ (fuel : Nat) (s : TStore) (t : Txn), P s.data →
+      (commitLoop q env fuel s t ops).2.1 = .persistentConflict →
+      (commitLoop q env fuel s t ops).2.2 = fuel + 1 ∧ P (commitLoop q env fuel s t ops).1.data := by
+  intro fuel
+  induction fuel with
+  | zero =>
+    intro s t hps h
+    by_cases hc : (commitOnce q s t ops).2 = .writeConflict
+    · rw [commitLoop_zero_conflict q env s t ops hc]
+      refine ⟨rfl, ?_⟩
+      show P (commitOnce q s t ops).1.data
+      rw [commitOnce_conflict_data q s t ops hc]; exact hps
+    · rw [commitLoop_first_settles q env 0 s t ops hc] at h
+      exact absurd h (commitOnce_ne_persistent q s t ops)
+  | succ n ih =>
+    intro s t hps h
+    by_cases hc : (commitOnce q s t ops).2 = .writeConflict
+    · rw [commitLoop_succ_conflict q env n s t ops hc] at h ⊢
+      have hd := commitOnce_conflict_data q s t ops hc
+      have := ih (env n (commitOnce q s t ops).1.begin.1) (commitOnce q s t ops).1.begin.2
+        (by apply hE; show P (commitOnce q s t ops).1.data; rw [hd]; exact hps) h
+      exact ⟨by rw [this.1], this.2⟩
+    · rw [commitLoop_succ_other q env n s t ops hc] at h
+      exact absurd h (commitOnce_ne_persistent q s t ops)
 
 /-! ### a batch only looks at the keys it writes -/
 
